@@ -6,6 +6,14 @@ def run(ctx):
     classes, n_schema, gen = _codec.setup(ctx)
     gen.null_arrays = True       # the null form of arrays is part of the wire domain
     per_class = 2 if ctx["tier"] == "quick" else 30
+    # a peer that also SENDS: for every other class the writer (both flavours) is derived before its reader ever is -
+    # what the decoder accepts must not depend on that order
+    from kio.serial import entity_writer
+    for i in range(1, n_schema, 2):
+        try:
+            entity_writer(classes[i]); entity_writer(classes[i], True)
+        except Exception:  # noqa: derivability is C13's subject
+            pass
     cases = _wire.wire_cases(ctx, classes, n_schema, gen, per_class, p_send=0.5, p_unknown=0.6)
     failing, errors = _wire.run_coq(ctx, "C03", cases)
     viol = []
@@ -32,7 +40,7 @@ def run(ctx):
         "traces_validated_against_impl": len(cases) - len(failing),
         "rule": "per class, typed values over the wire domain, decorated with explicitly sent defaults (p=0.5 per tagged "
                 "field, incl. explicit nulls) and 1-3 unknown tagged fields (p=0.6 per flexible entity, at every nesting "
-                "level), encoded by the independent reference encoder; non-trivial = carries at least one decoration",
+                "level), encoded by the independent reference encoder; for every other class the writer is derived before the reader; non-trivial = carries at least one decoration",
         "decorated_cases": n_dec, "decodes_repeated_under_other_interpreter_settings": n_env, "generator_stats": gen.stats, "distribution": _codec.distribution(cases, classes),
         "samples": [_wire.describe(classes, c) for c in [c for c in cases if c["decorated"]][:2]],
         "property_failures_on_implementation": len(prop_fail), "correspondence_disagreements": len(failing),
